@@ -1365,6 +1365,9 @@ func (t *XT) coqStyle() (string, bool) {
 		if t.S == failingClosure {
 			return "SCloErr", true
 		}
+		if t.S == "x->x" {
+			return "SCloId", true
+		}
 		return "", false
 	case "map":
 		// css entries with string / int values, no plainList key; the key table holds the table format map
@@ -1389,7 +1392,7 @@ func (t *XT) coqStyle() (string, bool) {
 							}
 						}
 					}
-					if fv.Kind != "str" && fv.Kind != "map" && !(fv.Kind == "closure" && fv.S == failingClosure) {
+					if fv.Kind != "str" && fv.Kind != "map" && !(fv.Kind == "closure" && (fv.S == failingClosure || fv.S == "x->x")) {
 						return "", false
 					}
 					st, ok := fv.coqStyle()
@@ -1795,6 +1798,7 @@ func cmdC18(seed int64, tier, outDir string) {
 		tfm("color", xs("red"), "table", tfm("r1c1", xs("a:\"1\""), "r2", xs("row2"), "c2", tfm("font_weight", xs("bold")), "all", xs("<all>"))),
 		tfm("table", tfm("all", &XT{Kind: "closure", S: failingClosure}, "r1", xs("x"))),
 		tfm("table", tfm("r3c1", xs("single")), "width", xi(3)),
+		tfm("table", tfm("r2c2", &XT{Kind: "closure", S: "x->x"}, "r2", xs("row2"), "c1", &XT{Kind: "closure", S: "x->x"}, "all", xs("rest"))),
 		tfm("table", tfm()),
 	} {
 		for _, max := range []int{1, 2, 3} {
